@@ -23,21 +23,35 @@ fn varnat_roundtrip_all_u64() {
     }
 }
 
-/// C02/C11: variable_nat_decode on ANY slice of length <= 11 returns (never panics); a result consumes <= 10 bytes and its
-/// last consumed byte terminates; an unterminated field is rejected.  BOUNDED by slice length 11 (one more than the longest canonical
-/// accepted encoding).
+/// C02/C11: variable_nat_decode on ANY slice of length <= 11 returns (never panics) and is EXACT: a result (v, n) means bytes[..n] is a
+/// terminated base-128 big-endian numeral whose value is v with no bit lost; None means unterminated within the slice or value > u64::MAX.
+/// BOUNDED by slice length 11 (one more than the longest canonical encoding).
 #[kani::proof]
 #[kani::unwind(13)]
 fn varnat_decode_total_len11() {
     let buf: [u8; 11] = kani::any();
     let len: usize = kani::any();
     kani::assume(len <= 11);
+    // reference semantics computed independently in the harness (u128 accumulator, no truncation)
+    let mut acc: u128 = 0;
+    let mut expect: Option<(u64, usize)> = None;
+    let mut done = false;
+    let mut i = 0;
+    while i < 11 {
+        if i < len && !done {
+            acc = (acc << 7) | (buf[i] & 0x7F) as u128;
+            if acc > u64::MAX as u128 { done = true; }
+            else if buf[i] & 0x80 == 0 { expect = Some((acc as u64, i + 1)); done = true; }
+        }
+        i += 1;
+    }
     match variable_nat_decode(&buf[..len]) {
-        Some((_v, n)) => {
+        Some((v, n)) => {
             assert!(n >= 1 && n <= len);
             assert!(buf[n - 1] & 0x80 == 0);
+            match expect { Some((ev, en)) => { assert!(v == ev && n == en); } None => { assert!(false, "accepted an overflowing or unterminated field"); } }
         }
-        None => {}
+        None => { assert!(expect.is_none()); }
     }
 }
 
